@@ -36,6 +36,7 @@ inductive ModStep where
   | mod (m : TypeMod)
   | skip
   | stop
+  deriving DecidableEq
 
 def modBeforeStep (t : Tok) : ModStep :=
   match t with
